@@ -68,7 +68,159 @@ func init() {
 		// sync.Pool: a buffer is private to its user only if every Get is matched by exactly one Put
 		e.P("/-- every function of service/rtsp and service/wsp that uses the `buffers` pool: (file:function, Get calls, deferred Put calls, other Put calls) -/")
 		e.P("def poolUses : List (String × Nat × Nat × Nat) := %s", poolUses(e))
+		bconnFacts(e)
 	})
+}
+
+// bconnFacts: the METHOD SET of buffered.Conn.  A caller that probes its io.Writer for a faster
+// method (io.WriteString, io.Copy, the writeStringer probe of av/format/rtsp Response.Write /
+// Header.Write / Request.Write, fmt, bufio …) ends up in whatever method the type has, so every method
+// that can put bytes on the connection is a write path the model has to describe.  Listed: every
+// method declared on Conn in the non-test, non-verif files of network/socket/buffered with its
+// signature; the fields the struct embeds (their methods are promoted); and, of the methods, those
+// whose body touches the write queue (a call on m.writer other than Len / Bytes), the socket's Write,
+// the rate limiter, or another such method.
+func bconnFacts(e *Emitter) {
+	root := "/repo"
+	if f := flag.Lookup("repo"); f != nil {
+		root = f.Value.String()
+	}
+	dir := "network/socket/buffered"
+	fis, err := ioutil.ReadDir(filepath.Join(root, dir))
+	if err != nil {
+		e.Unknown("bconnMethods")
+		return
+	}
+	var sigs, names, embedded []string
+	bodies := map[string]*ast.FuncDecl{}
+	structSeen := false
+	for _, fi := range fis {
+		name := fi.Name()
+		if fi.IsDir() || !strings.HasSuffix(name, ".go") || strings.HasSuffix(name, "_test.go") {
+			continue
+		}
+		f := Parse(dir + "/" + name)
+		if f == nil {
+			e.Unknown("bconnMethods:" + name)
+			continue
+		}
+		if hasVerifTag(f) {
+			continue // harness accessors, compiled only with the verif tag
+		}
+		for _, d := range f.Decls {
+			switch x := d.(type) {
+			case *ast.GenDecl:
+				for _, sp := range x.Specs {
+					ts, ok := sp.(*ast.TypeSpec)
+					if !ok || ts.Name.Name != "Conn" {
+						continue
+					}
+					st, ok := ts.Type.(*ast.StructType)
+					if !ok {
+						e.Unknown("bconnStruct")
+						continue
+					}
+					structSeen = true
+					for _, fld := range st.Fields.List {
+						if len(fld.Names) == 0 {
+							embedded = append(embedded, strings.Join(strings.Fields(Src(fld.Type)), ""))
+						}
+					}
+				}
+			case *ast.FuncDecl:
+				if x.Recv == nil || len(x.Recv.List) == 0 || strings.TrimPrefix(Src(x.Recv.List[0].Type), "*") != "Conn" {
+					continue
+				}
+				sig := strings.TrimPrefix(strings.Join(strings.Fields(Src(x.Type)), " "), "func")
+				sigs = append(sigs, x.Name.Name+sig)
+				names = append(names, x.Name.Name)
+				bodies[x.Name.Name] = x
+			}
+		}
+	}
+	if !structSeen {
+		e.Unknown("bconnStruct")
+	}
+	// write paths: fixed point over "touches the queue / the socket's Write / the limiter / a write path"
+	wp := map[string]bool{}
+	touches := func(fd *ast.FuncDecl) bool {
+		if fd.Body == nil || fd.Recv == nil || len(fd.Recv.List[0].Names) == 0 {
+			return fd.Body != nil // a receiver without a name cannot touch anything; no body: unknown shape
+		}
+		r := fd.Recv.List[0].Names[0].Name
+		hit := false
+		ast.Inspect(fd.Body, func(n ast.Node) bool {
+			switch x := n.(type) {
+			case *ast.CallExpr:
+				fun := strings.Join(strings.Fields(Src(x.Fun)), "")
+				switch {
+				case strings.HasPrefix(fun, r+".writer.") && fun != r+".writer.Len" && fun != r+".writer.Bytes":
+					hit = true
+				case fun == r+".socket.Write", strings.HasPrefix(fun, r+".limit."):
+					hit = true
+				case strings.HasPrefix(fun, r+".") && wp[strings.TrimPrefix(fun, r+".")]:
+					hit = true
+				}
+				// the queue, the socket or the receiver itself handed to a callee (io.Copy(m.writer, …), fmt.Fprintf(m.socket, …))
+				for _, a := range x.Args {
+					as := strings.Join(strings.Fields(Src(a)), "")
+					if as == r+".writer" || as == r+".socket" || as == r+".limit" || (as == r && !strings.HasPrefix(fun, "option.")) {
+						hit = true
+					}
+				}
+			case *ast.AssignStmt:
+				for _, l := range x.Lhs {
+					ls := strings.Join(strings.Fields(Src(l)), "")
+					if ls == r+".writer" || ls == r+".socket" || ls == r+".limit" {
+						hit = true
+					}
+				}
+			}
+			return true
+		})
+		return hit
+	}
+	for changed := true; changed; {
+		changed = false
+		for n, fd := range bodies {
+			if !wp[n] && touches(fd) {
+				wp[n] = true
+				changed = true
+			}
+		}
+	}
+	var paths []string
+	for n := range wp {
+		paths = append(paths, n)
+	}
+	sort.Strings(sigs)
+	sort.Strings(names)
+	sort.Strings(embedded)
+	sort.Strings(paths)
+	e.P("/-- network/socket/buffered: every method declared on Conn (non-test, non-verif files), with its signature, sorted -/")
+	e.P("def bconnMethodSigs : List String := %s", LeanStrList(sigs))
+	e.P("/-- the names of those methods -/")
+	e.P("def bconnMethods : List String := %s", LeanStrList(names))
+	e.P("/-- the fields struct Conn embeds (their methods are promoted into its method set) -/")
+	e.P("def bconnEmbedded : List String := %s", LeanStrList(embedded))
+	e.P("/-- the methods whose body touches the write queue, the socket's Write, the rate limiter, or another such method -/")
+	e.P("def bconnWritePaths : List String := %s", LeanStrList(paths))
+}
+
+// hasVerifTag: the file carries a `//go:build verif` (or `// +build verif`) constraint
+func hasVerifTag(f *ast.File) bool {
+	for _, cg := range f.Comments {
+		if cg.Pos() > f.Package {
+			break
+		}
+		for _, c := range cg.List {
+			t := strings.TrimSpace(strings.TrimPrefix(c.Text, "//"))
+			if t == "go:build verif" || t == "+build verif" {
+				return true
+			}
+		}
+	}
+	return false
 }
 
 var connField = regexp.MustCompile(`\.(conn|wsconn|dataChannel)$`)
